@@ -26,7 +26,11 @@ impl LintPass for GarbageInputValueCheck {
                 }
             } else if let Some(func) = node.is_function_entry_with_func() {
                 let args = func.arguments();
-                let garbage = node.live_in() - args - Register::callee_saved_set();
+                // The registers that are live right after entering the
+                // function. (The live-in set of the entry node itself never
+                // contains a caller-saved register, so a temporary that is
+                // read before it is assigned would go unnoticed.)
+                let garbage = node.live_out() - args - Register::callee_saved_set();
                 if !garbage.is_empty() {
                     let mut ranges = Vec::new();
                     for reg in &garbage {
